@@ -370,12 +370,16 @@ def obligations(tier, seed):
                                         nqs += [(1, 0), (0, 1), (1, 1)]
                                 for nq1, nq2 in nqs:
                                     cfg = {"cls": cls, "sh1": sh1, "sh2": sh2, "k1": k1, "k2": k2,
-                                           "nq1": nq1, "nq2": nq2, "t1": t1, "t2": t2, "pool": bool(nq1 or nq2)}
+                                           "nq1": nq1, "nq2": nq2, "t1": t1, "t2": t2,
+                                           # pool mode also where the XSD 1.0 "not expressible" error formats both sets (repr of a
+                                           # symbolic set makes the engine enumerate concrete strings without end)
+                                           "pool": bool(nq1 or nq2) or (op == "h_union" and not v11 and k1 + k2 >= 2 and
+                                                                        {sh1, sh2} == {"other", "set"})}
                                     out.append({
                                         "name": "%s/%s/%s%d-%s%d/q%d%d/t=%s,%s" % (op[2:], cls, sh1, k1, sh2, k2, nq1, nq2, t1 or "-", t2 or "-"),
                                         "fn": op, "pre": "pre_pair", "args": _args(cfg, op), "config": cfg,
                                         "timeout": to, "twin_timeout": 30,
                                         "bound": "set sizes exactly (%d,%d), not_qname (%d,%d), %s, tns (%r,%r)" % (
-                                            k1, k2, nq1, nq2, "namespaces from a pool of 5 (finite choice)" if (nq1 or nq2) else "namespace strings <=2 chars", t1, t2),
+                                            k1, k2, nq1, nq2, "namespaces from a pool of 5 (finite choice)" if cfg["pool"] else "namespace strings <=2 chars", t1, t2),
                                     })
     return out
